@@ -97,6 +97,26 @@ def b64 (op : String) (args : List String) : String :=
       | .notB64 => "ERR:notb64"
       | .length => "ERR:length"
     | none => "bad-op"
+  | "enchuge", [n, offs] =>   -- text of n bytes: NUL everywhere, a marker byte every 1048573 bytes (harness: huge_byte).  By
+                              -- encode_length / encode_window / encode_tail (PV.Props.C09) the output's length and any 4-aligned
+                              -- window are those of the corresponding input window; only the windows are computed here.
+    match n.toNat?, (if offs == "-" then some [] else (offs.splitOn ",").mapM String.toNat?) with
+    | some n, some os =>
+      if n == 0 then "bad-op" else
+      let hb : Nat → UInt8 := fun p => if p % 1048573 == 0 then UInt8.ofNat ((p / 1048573) % 251 + 1) else 0
+      let win : Nat → Nat → List UInt8 := fun o k => (List.range k).map (fun i => hb (o + i))
+      let ws := os.map (fun o => s!" {o}:" ++ (if o / 3 * 4 + 8 ≤ 4 * ((n + 2) / 3) then hex (PV.Base64.encode (win o 6)) else "short"))
+      let last := (n - 1) / 3 * 3
+      s!"ok len={4 * ((n + 2) / 3)}" ++ String.join ws ++ " tail:" ++ hex (PV.Base64.encode (win last (n - last)))
+    | _, _ => "bad-op"
+  | "dechuge", [n, h] =>      -- prefix (no '=') followed by NUL bytes up to n: NUL is foreign, so by decode_rejects_foreign the
+                              -- result is never ok, however long the text; the model decodes the prefix plus one NUL
+    match n.toNat?, unhex h with
+    | some _, some pre => match PV.Base64.decode (pre ++ [0]) with
+      | .ok o => s!"ok {o.length}"
+      | .notB64 => "ERR:notb64"
+      | .length => "ERR:length"
+    | _, _ => "bad-op"
   | "decseq", hs =>      -- every document on its own: the result may not depend on what was decoded before
     match hs.mapM unhex with
     | some docs =>
